@@ -28,7 +28,7 @@ ASSUMPTIONS = [
     "commands no ordering rule mentions are not ranked; ties inside one rank are not judged",
     "metamorphic relation is evaluated only when the reduced patch's commands are a sub-multiset of the full patch's commands (otherwise the deleted row was not unrelated)",
 ]
-FLOORS = {"quick": {"patches_ranked": 1500, "ranked_pairs": 3000, "sort_calls": 3000, "configs_ordered": 1500, "metamorphic_pairs": 150, "several_global_rule_cases": 300, "echoed_family_cases": 300, "unordered_blocks_compared": 500, "commented_patches": 300, "commented_commands": 600, "scoped_rule_cases": 300, "ordering_lines_with_tab_before_params": 300, "mirrored_pairs_checked": 150, "cases_with_a_global_block_rule_that_has_nested_rules": 150, "ordering_rules_with_an_inline_letter_case_marker": 1000, "removals_spelled_positively_under_a_positive_pin": 300, "global_pins": 500, "ordering_rules_with_params_on_a_line_at_the_left_margin": 60, "cases_with_two_block_kinds_sharing_nested_rule_texts": 500},
+FLOORS = {"quick": {"patches_ranked": 1500, "ranked_pairs": 3000, "sort_calls": 3000, "configs_ordered": 1500, "metamorphic_pairs": 150, "several_global_rule_cases": 300, "echoed_family_cases": 300, "unordered_blocks_compared": 500, "commented_patches": 300, "commented_commands": 600, "scoped_rule_cases": 300, "ordering_lines_with_tab_before_params": 300, "mirrored_pairs_checked": 150, "cases_with_a_global_block_rule_that_has_nested_rules": 150, "ordering_rules_with_an_inline_letter_case_marker": 1000, "removals_spelled_positively_under_a_positive_pin": 300, "global_pins": 500, "undo_redo_changes_beside_their_own_removal": 100, "ordering_rules_with_params_on_a_line_at_the_left_margin": 60, "cases_with_two_block_kinds_sharing_nested_rule_texts": 500},
           "thorough": {"patches_ranked": 60000, "ranked_pairs": 100000, "sort_calls": 100000, "configs_ordered": 60000, "metamorphic_pairs": 300, "several_global_rule_cases": 10000, "echoed_family_cases": 10000, "unordered_blocks_compared": 15000, "commented_patches": 10000, "commented_commands": 20000, "scoped_rule_cases": 10000}}
 VENDORS = c01.BLOCK_VENDORS
 KNOWN_ZERO = "C08/first-ordering-rule-has-rank-zero"
@@ -202,7 +202,7 @@ def check_config_level(tree_before, tree_after, olevel, prefix, acc, w, path=())
     return True
 
 
-def make_case(seed, many_globals=False, echo=False, scoped=False, gblock=False, pospin=False, gpin=False, twins=False):
+def make_case(seed, many_globals=False, echo=False, scoped=False, gblock=False, pospin=False, gpin=False, twins=False, urpin=False):
     rng = random.Random(seed)
     vname = VENDORS[rng.randrange(len(VENDORS))]
     v, prefix, exitw, hw, fmt = c01.vendor_env(vname)
@@ -230,6 +230,13 @@ def make_case(seed, many_globals=False, echo=False, scoped=False, gblock=False, 
                       RB.Rule("tb *", children=[RB.Rule("tf *", children=[RB.Rule("tg *"), RB.Rule("th *")])])]
         order[0:0] = [RO.ORule("ta *", children=[RO.ORule("tf *", children=[RO.ORule("tg *"), RO.ORule("th *")])]),
                       RO.ORule("tb *", children=[RO.ORule("tf *", children=[RO.ORule("th *"), RO.ORule("tg *")])])]
+    if urpin:
+        # a family that is changed by removing and re-creating the line (undo_redo); its removal is pinned by the FIRST rule of the ordering text,
+        # or no ordering rule mentions the family: either way removal and re-creation of one key stand side by side, removal first
+        urng = random.Random(seed ^ 0x0421)
+        rules.insert(0, RB.Rule("ur *", logic="common.undo_redo"))
+        if urng.random() < 0.6:
+            order.insert(0, RO.ORule(prefix + " ur *", order_reverse=True))
     if pospin:
         # a line of configuration that is itself spelled negated (`undo portswitch`): its removal is the positive command, which an ordering
         # rule written in the positive form pins to its place with %order_reverse (as the shipped `portswitch %order_reverse` does)
@@ -241,12 +248,14 @@ def make_case(seed, many_globals=False, echo=False, scoped=False, gblock=False, 
     return vname, rules, order, old, new
 
 
-def check_case(seed, acc, many_globals=False, echo=False, scoped=False, tabs=False, gblock=False, icase=False, pospin=False, gpin=False, twins=False):
+def check_case(seed, acc, many_globals=False, echo=False, scoped=False, tabs=False, gblock=False, icase=False, pospin=False, gpin=False, twins=False, urpin=False):
     from annet.api import _diff_and_patch
     from annet.annlib.patching import Orderer
     from annet.annlib.rbparser.ordering import compile_ordering_text
     install_sort_hook()
-    vname, rules, order, old, new = make_case(seed, many_globals, echo, scoped, gblock, pospin, gpin, twins)
+    vname, rules, order, old, new = make_case(seed, many_globals, echo, scoped, gblock, pospin, gpin, twins, urpin)
+    if urpin:
+        acc.count("undo_redo_changes_beside_their_own_removal", sum(1 for r_ in old if r_.startswith("ur ") and r_ not in new and any(n_.split()[:2] == r_.split()[:2] for n_ in new)))
     if twins:
         acc.count("cases_with_two_block_kinds_sharing_nested_rule_texts")
     if gpin:
@@ -300,7 +309,7 @@ def check_case(seed, acc, many_globals=False, echo=False, scoped=False, tabs=Fal
             lines.append(ind + " ".join(ws) + sep + params)
         otext = "\n".join(lines)
         acc.count("ordering_rules_with_an_inline_letter_case_marker", n_)
-    w = {"seed": seed, "many_globals": many_globals, "echo": echo, "scoped": scoped, "tabs": tabs, "gblock": gblock, "icase": icase, "pospin": pospin, "gpin": gpin, "twins": twins, "vendor": vname, "rulebook": rtext, "ordering": otext, "old": plain(old), "new": plain(new)}
+    w = {"seed": seed, "many_globals": many_globals, "echo": echo, "scoped": scoped, "tabs": tabs, "gblock": gblock, "icase": icase, "pospin": pospin, "gpin": gpin, "twins": twins, "urpin": urpin, "vendor": vname, "rulebook": rtext, "ordering": otext, "old": plain(old), "new": plain(new)}
     try:
         rb = c01.compile_rb(rtext, vname)
         rb["ordering"] = compile_ordering_text(otext, vname)
@@ -601,7 +610,7 @@ def run_shard(spec, acc):
         elif w.get("meta"):
             run_meta({"tier": "thorough", "shard": 0, "nshards": 1, "only": w.get("sample")}, acc)
         else:
-            check_case(w["seed"], acc, many_globals=bool(w.get("many_globals")), echo=bool(w.get("echo")), scoped=bool(w.get("scoped")), tabs=bool(w.get("tabs")), gblock=bool(w.get("gblock")), icase=bool(w.get("icase")), pospin=bool(w.get("pospin")), gpin=bool(w.get("gpin")), twins=bool(w.get("twins")))
+            check_case(w["seed"], acc, many_globals=bool(w.get("many_globals")), echo=bool(w.get("echo")), scoped=bool(w.get("scoped")), tabs=bool(w.get("tabs")), gblock=bool(w.get("gblock")), icase=bool(w.get("icase")), pospin=bool(w.get("pospin")), gpin=bool(w.get("gpin")), twins=bool(w.get("twins")), urpin=bool(w.get("urpin")))
         return
     if spec["mode"] == "meta":
         return run_meta(spec, acc)
@@ -632,3 +641,5 @@ def run_shard(spec, acc):
             check_case(rng.randrange(1 << 48), acc, many_globals=True, gpin=True)
         if j % 5 == 1:
             check_case(rng.randrange(1 << 48), acc, twins=True)
+        if j % 5 == 4:
+            check_case(rng.randrange(1 << 48), acc, urpin=True)
